@@ -31,7 +31,7 @@ fn plan(tier: Tier) -> (u64, Vec<&'static str>, u64) {
     }
     match tier {
         Tier::Quick => (1200, QUICK_MODELS.to_vec(), 6),
-        Tier::Thorough => (60_000, ALL_MODELS.to_vec(), 40),
+        Tier::Thorough => (60_000, ALL_MODELS.to_vec(), 12),
     }
 }
 
@@ -205,54 +205,137 @@ fn run(rng: &mut Rng, idx: u64, tier: Tier) -> CaseOut {
     }
     let j = idx - small;
     let model_name = models[(j / pairs) as usize];
+    run_big_in_child(model_name, j, rng.next(), tier)
+}
+
+/// Big-model cases run in a child process (this same binary, sub-command `c11-child`) under a
+/// wall-clock and an address-space limit, because a single symbolic operator on a large
+/// parametrised model cannot be interrupted from inside. A child that is killed or runs out of
+/// memory makes the case inconclusive, never violated.
+fn run_big_in_child(model_name: &str, j: u64, seed: u64, tier: Tier) -> CaseOut {
     let mut out = CaseOut::new(format!("{model_name}-{j}"));
+    let budget_s: u64 = if tier == Tier::Quick { 40 } else { 120 };
+    let mem_kb: u64 = 6_000_000;
+    // at most 6 children at a time (6 x 6 GB address space on a 62 GB machine)
+    static RUNNING: std::sync::atomic::AtomicUsize = std::sync::atomic::AtomicUsize::new(0);
+    loop {
+        let cur = RUNNING.load(std::sync::atomic::Ordering::SeqCst);
+        if cur < 6 && RUNNING.compare_exchange(cur, cur + 1, std::sync::atomic::Ordering::SeqCst, std::sync::atomic::Ordering::SeqCst).is_ok() {
+            break;
+        }
+        std::thread::sleep(std::time::Duration::from_millis(20));
+    }
+    struct Release;
+    impl Drop for Release {
+        fn drop(&mut self) {
+            RUNNING.fetch_sub(1, std::sync::atomic::Ordering::SeqCst);
+        }
+    }
+    let _release = Release;
+    let exe = std::env::current_exe().expect("own path");
+    let cmd = format!("ulimit -v {mem_kb}; exec '{}' c11-child {} {} {}", exe.display(), model_name, seed, budget_s);
+    let child = std::process::Command::new("sh").arg("-c").arg(&cmd).stdout(std::process::Stdio::piped()).stderr(std::process::Stdio::null()).spawn();
+    let mut child = match child {
+        Ok(c) => c,
+        Err(e) => {
+            out.inconclusive(&format!("cannot start the child process: {e}"));
+            return out;
+        }
+    };
+    let start = Instant::now();
+    let killed = loop {
+        match child.try_wait() {
+            Ok(Some(_)) => break false,
+            Ok(None) => {
+                if start.elapsed().as_secs() > budget_s + 20 {
+                    let _ = child.kill();
+                    let _ = child.wait();
+                    break true;
+                }
+                std::thread::sleep(std::time::Duration::from_millis(50));
+            }
+            Err(_) => break true,
+        }
+    };
+    let mut text = String::new();
+    if let Some(mut so) = child.stdout.take() {
+        use std::io::Read;
+        let _ = so.read_to_string(&mut text);
+    }
+    let mut done = false;
+    for line in text.lines() {
+        let parts: Vec<&str> = line.splitn(3, '\t').collect();
+        match parts.as_slice() {
+            ["COUNT", name, n] => out.add(name, n.parse().unwrap_or(0)),
+            ["KEY", k, _] => out.key = k.to_string(),
+            ["NONTRIVIAL", sample, _] => {
+                out.nontrivial = true;
+                out.sample = Some(J::obj(vec![("big_model_case", J::s(sample))]));
+            }
+            ["VIOLATION", sig, what] => {
+                out.violate(sig, format!("model {model_name}: {what}"), J::obj(vec![("model", J::s(model_name)), ("child_seed", J::Int(seed as i64)), ("what", J::s(what))]));
+            }
+            ["INCONCLUSIVE", why, _] => out.inconclusive(why),
+            ["DONE", _, _] => done = true,
+            _ => {}
+        }
+    }
+    if !done && !out.is_violated() {
+        out.count(&format!("cut_{model_name}"));
+        out.count("big_model_cases_cut_by_budget");
+        out.inconclusive(if killed { "child exceeded its wall-clock budget" } else { "child ended early (memory limit or crash of the harness child)" });
+    } else if done {
+        out.count("big_model_cases_completed");
+        out.count(&format!("completed_{model_name}"));
+    }
+    out
+}
+
+/// Body of the child process: prints tab-separated records on stdout.
+pub fn child_main(model_name: &str, seed: u64, budget_s: u64) {
+    let mut rng = Rng::new(seed);
+    let mut out = CaseOut::new(String::new());
     let start = Instant::now();
     let model = match models::load(model_name, 0) {
         Ok(m) => m,
         Err(e) => {
-            out.inconclusive(&format!("cannot load model {model_name}: {e}"));
-            return out;
+            println!("INCONCLUSIVE\tcannot load model {model_name}: {}\t", e.replace(['\n', '\t'], " "));
+            return;
         }
     };
-    let (s, sd) = models::random_set(rng, &model.graph);
-    let (t, td) = models::random_set(rng, &model.graph);
-    let (extra, _) = models::random_set(rng, &model.graph);
+    let (s, sd) = models::random_set(&mut rng, &model.graph);
+    let (t, td) = models::random_set(&mut rng, &model.graph);
+    let (extra, _) = models::random_set(&mut rng, &model.graph);
     let s2 = s.union(&extra);
-    out.key = format!("{model_name}|{sd}|{td}");
-    let budget = if tier == Tier::Quick { 40 } else { 240 };
-    let deadline = start + std::time::Duration::from_secs(budget);
+    println!("KEY\t{model_name}|{sd}|{td}\t");
+    let deadline = start + std::time::Duration::from_secs(budget_s);
     let unit = model.graph.mk_unit_colored_vertices();
-    match check_laws(&model.graph, &s, &t, &s2, &mut out, deadline, 3000) {
+    let res = check_laws(&model.graph, &s, &t, &s2, &mut out, deadline, 3000);
+    for (k, v) in &out.counters {
+        println!("COUNT\t{k}\t{v}");
+    }
+    match res {
         Ok(changed) => {
             if Instant::now() > deadline {
-                out.count("big_model_cases_cut_by_time_budget");
-                out.count(&format!("cut_{model_name}"));
-                out.inconclusive("per-case time budget exceeded (partial laws checked)");
-            } else {
-                out.count("big_model_cases_completed");
-                out.count(&format!("completed_{model_name}"));
+                println!("INCONCLUSIVE\tper-case time budget exceeded (partial laws checked)\t");
+                return;
             }
-            out.nontrivial = changed && !s.is_empty() && s != unit;
-            if out.nontrivial {
-                out.sample = Some(J::obj(vec![
-                    ("model", J::s(model_name)),
-                    ("variables", J::Int(model.graph.num_vars() as i64)),
-                    ("colours", J::Num(model.graph.unit_colors().approx_cardinality())),
-                    ("S", J::s(&format!("{sd} ({} elements)", s.approx_cardinality()))),
-                    ("T", J::s(&format!("{td} ({} elements)", t.approx_cardinality()))),
-                    ("seconds", J::Num(start.elapsed().as_secs_f64())),
-                ]));
+            if changed && !s.is_empty() && s != unit {
+                println!(
+                    "NONTRIVIAL\tmodel {model_name} ({} variables, {} colours): S = {sd} ({} elements), T = {td} ({} elements), {:.1} s\t",
+                    model.graph.num_vars(),
+                    model.graph.unit_colors().approx_cardinality(),
+                    s.approx_cardinality(),
+                    t.approx_cardinality(),
+                    start.elapsed().as_secs_f64()
+                );
             }
+            println!("DONE\t\t");
         }
         Err((sig, what)) => {
-            out.violate(
-                &sig,
-                format!("model {model_name}: {what}"),
-                J::obj(vec![("model", J::s(model_name)), ("S", J::s(&sd)), ("T", J::s(&td)), ("S_elements", J::Num(s.approx_cardinality())), ("T_elements", J::Num(t.approx_cardinality())), ("what", J::s(&what))]),
-            );
+            println!("VIOLATION\t{}\t{} [S = {sd}; T = {td}]", sig.replace(['\n', '\t'], " "), what.replace(['\n', '\t'], " "));
         }
     }
-    out
 }
 
 fn run_small(rng: &mut Rng, tier: Tier) -> CaseOut {
